@@ -11,6 +11,10 @@
 //	   (Solve on a stamp that may already carry a solution: still valid, stale after its parameters changed, foreign, garbage;
 //	    every successful rsolve is followed by an `hcv` line (real Verify on the result) and a `vs` line (the result signed and
 //	    presented to the real VerifySolution under the stamp's own parameters, fromSolver=true))
+//	hcvs <diff> <exp|z> <stamp subject> <nonce> <alg> <solution> <expected subject> <String()> <sha256 of it> <nowLo> <nowHi>
+//	   => ok | v-alg | v-expired | v-subject | v-solution | v-difficulty | other | panic
+//	   (the real Hashcash.Verify(expected) on SOLVED stamps whose own subject is / is not the expected one: subjects come from a
+//	    family around the expected subject — New()'s default, wildcard look-alikes, prefixes, case and whitespace variants)
 //
 // sha256 / ed25519 / base64 results are computed here by the real libraries and handed to the model as inputs.
 // time.Now() is not controlled: every vs line carries the wall clock just before and just after the call; the
@@ -808,6 +812,137 @@ func genResolve(n, maxD int) {
 	r.Raw("# case end-of-rsolve")
 }
 
+// ---------- subjects: solved stamps that name / do not name the expected subject ----------
+
+// doHCVS runs the real Hashcash.Verify(expected) on hc as it is.
+func doHCVS(kind string, hc *hashcash.Hashcash, expected string) string {
+	s := hc.String()
+	dg := sha256.Sum256([]byte(s))
+	lo := time.Now().UnixNano()
+	res := func() (s string) {
+		defer func() {
+			if recover() != nil {
+				s = "panic"
+			}
+		}()
+		switch err := hc.Verify(expected); err {
+		case nil:
+			return "ok"
+		case hashcash.ErrUnsupportedAlgorithm:
+			return "v-alg"
+		case hashcash.ErrExpired:
+			return "v-expired"
+		case hashcash.ErrInvalidSubject:
+			return "v-subject"
+		case hashcash.ErrInvalidSolution:
+			return "v-solution"
+		case hashcash.ErrInvalidDifficulty:
+			return "v-difficulty"
+		default:
+			return "other"
+		}
+	}()
+	hi := time.Now().UnixNano()
+	r.Emit(strings.Join([]string{"hcvs", strconv.Itoa(hc.Difficulty), expTok(hc.ExpiresAt), hlib.HexS(hc.Subject), hlib.HexS(hc.Nonce),
+		hlib.HexS(hc.Alg), hlib.HexS(hc.Solution), hlib.HexS(expected), hlib.HexS(s), hlib.Hex(dg[:]),
+		strconv.FormatInt(lo, 10), strconv.FormatInt(hi, 10)}, " "), res)
+	r.Case("hcvs" + s + "|" + expected)
+	r.Count("hcvs:" + kind + ":" + res)
+	return res
+}
+
+// subjects a careless comparison could confuse with `base`: what New() puts in place of an empty subject, wildcard / pattern
+// look-alikes, the empty subject, prefixes and extensions, case and whitespace variants, and unrelated subjects
+func subjectFamily(base string) []string {
+	f := []string{"*", "", "?", "%", ".*", "**", "*.*", "_", "*" + base, base + "*", base + " ", " " + base, base + "\x00", base + "=",
+		strings.ToUpper(base), strings.ToLower(base), "example.com", "*.example.com", defaultSubject(rng.Bytes(32))}
+	if len(base) > 1 {
+		f = append(f, base[:len(base)-1], base[1:], base[:len(base)/2]+"*")
+	}
+	return f
+}
+
+func relation(stamp, expected string) string {
+	switch {
+	case stamp == expected:
+		return "same"
+	case stamp == "" || expected == "":
+		return "empty"
+	case strings.ContainsAny(stamp, "*?%_"):
+		return "pattern-stamp"
+	case strings.ContainsAny(expected, "*?%_"):
+		return "pattern-expected"
+	case strings.EqualFold(strings.TrimSpace(stamp), strings.TrimSpace(expected)):
+		return "case-or-space"
+	case strings.HasPrefix(stamp, expected) || strings.HasPrefix(expected, stamp):
+		return "prefix"
+	default:
+		return "other"
+	}
+}
+
+// genSubjects: a stamp is SOLVED for some subject of the family (so that everything but the subject is in order) and then
+// (a) checked by the real Verify against its own subject, the base subject and other members of the family, and
+// (b) signed and presented to the real VerifySolution: by the key it was (or was not) made for, and by several further fresh
+// keys, each of which expects its own identity-bound subject — one piece of work must not serve other identities.
+func genSubjects(n, maxD int) {
+	for i := 0; i < n; i++ {
+		pub, priv := newKey()
+		base := defaultSubject(pub)
+		if rng.Chance(20) {
+			base = hlib.Pick(rng, []string{"example.com", "tunnel.example.org", "s", "node-1"})
+		}
+		fam := subjectFamily(base)
+		ssub := base
+		viaNew := true // the subject goes through hashcash.New (which fills in its default for an empty one)
+		if rng.Chance(70) {
+			ssub = hlib.Pick(rng, fam)
+			viaNew = rng.Chance(60)
+		}
+		d := randDifficulty(maxD)
+		expires := 50 * year
+		if rng.Chance(25) {
+			expires = hlib.Pick(rng, []time.Duration{10 * time.Second, time.Minute, time.Hour})
+		}
+		h := hashcash.Hashcash{Difficulty: d, ExpiresAt: time.Now().Add(expires)}
+		if viaNew {
+			h.Subject = ssub
+		}
+		hc := hashcash.New(h)
+		if !viaNew {
+			hc.Subject = ssub // hand-written stamp
+		}
+		if err := guard(func() error { return hc.Solve(26) }); err != nil {
+			if solverHung {
+				return
+			}
+			continue
+		}
+		if strings.Contains(hc.Subject, ":") {
+			continue
+		}
+		// (a) Hashcash.Verify
+		exps := []string{hc.Subject, base, hlib.Pick(rng, fam), hlib.Pick(rng, fam)}
+		if rng.Chance(30) {
+			exps = append(exps, fam...)
+		}
+		for _, e := range exps {
+			doHCVS(relation(hc.Subject, e), hc, e)
+		}
+		// (b) VerifySolution
+		s := hc.String()
+		doVS("subject:own-key:"+relation(hc.Subject, base), pub, ed25519.Sign(priv, []byte(s)), s, d, expires, base, hc.Subject == base)
+		doVS("subject:own-key:"+relation(hc.Subject, hc.Subject), pub, ed25519.Sign(priv, []byte(s)), s, d, expires, hc.Subject, true)
+		for k := 1 + rng.Intn(3); k > 0; k-- {
+			pub2, priv2 := newKey()
+			e := defaultSubject(pub2)
+			doVS("subject:other-key:"+relation(hc.Subject, e), pub2, ed25519.Sign(priv2, []byte(s)), s, d, expires, e, false)
+		}
+		e := hlib.Pick(rng, fam)
+		doVS("subject:family:"+relation(hc.Subject, e), pub, ed25519.Sign(priv, []byte(s)), s, d, expires, e, hc.Subject == e)
+	}
+}
+
 func replay() {
 	for _, t := range r.ReplayLines() {
 		i := func(k int) int { v, _ := strconv.Atoi(t[k]); return v }
@@ -836,6 +971,16 @@ func replay() {
 				doRSolve("replay", &hashcash.Hashcash{Tag: "H", Difficulty: i(1), ExpiresAt: exp, Subject: string(hlib.UnHex(t[3])),
 					Nonce: string(hlib.UnHex(t[4])), Alg: string(hlib.UnHex(t[5])), Solution: string(hlib.UnHex(t[6]))}, i(7))
 			}
+		case "hcvs":
+			if len(t) >= 8 {
+				var exp time.Time
+				if t[2] != "z" {
+					e, _ := strconv.ParseInt(t[2], 10, 64)
+					exp = time.Unix(e, 0).UTC()
+				}
+				doHCVS("replay", &hashcash.Hashcash{Tag: "H", Difficulty: i(1), ExpiresAt: exp, Subject: string(hlib.UnHex(t[3])),
+					Nonce: string(hlib.UnHex(t[4])), Alg: string(hlib.UnHex(t[5])), Solution: string(hlib.UnHex(t[6]))}, string(hlib.UnHex(t[7])))
+			}
 		case "solve":
 			if len(t) >= 7 {
 				var exp time.Time
@@ -858,7 +1003,9 @@ func main() {
 		"(signature, key, sizes, required difficulty, expected subject, each stamp field re-signed, window parameter), hand-built stamps with expiry at second offsets around now−2E, now, now+2E; " +
 		"solve: real Solve over random stamps incl. rejected difficulties/algorithms; " +
 		"rsolve: stamp lives of several steps — solved, re-targeted (difficulty/subject/expiry/nonce) and solved again 1..3 times, foreign/garbage/borrowed solutions, " +
-		"parsed edited stamps, unchanged (still valid) stamps, expired-then-refreshed stamps, rejected re-solves — each result judged by its digest, the real Verify and the real VerifySolution. " +
+		"parsed edited stamps, unchanged (still valid) stamps, expired-then-refreshed stamps, rejected re-solves — each result judged by its digest, the real Verify and the real VerifySolution; " +
+		"hcvs/subject: stamps SOLVED for a subject of a family around the expected one (New()'s default for an empty subject, wildcard look-alikes, empty, prefixes, case/whitespace variants, other keys' subjects), " +
+		"checked by the real Verify against every member and presented to the real VerifySolution signed by the own key and by 1..3 further fresh keys that each expect their own subject. " +
 		"non-trivial = distinct op line"
 	if r.Replay != "" {
 		replay()
@@ -884,5 +1031,10 @@ func main() {
 	genResolve(nres, maxD)
 	genVS(nvs, maxD)
 	genTime(ntime)
+	nsub := 300
+	if r.Thorough() {
+		nsub = 3000
+	}
+	genSubjects(nsub, maxD)
 	r.Finish()
 }
